@@ -63,7 +63,12 @@ func (c *Controller) scaleUpCloudProviderNodeGroup(opts scaleOpts) (int, error) 
 	}
 
 	nodegroupName := opts.nodeGroup.Opts.Name
-	nodesToAdd := c.calculateNodesToAdd(int64(opts.nodesDelta), cloudProviderNodeGroup.TargetSize(), cloudProviderNodeGroup.MaxSize())
+	// the target size is bounded by both the node group's max_nodes and the cloud provider's own maximum
+	maxSize := cloudProviderNodeGroup.MaxSize()
+	if maxNodes := int64(opts.nodeGroup.Opts.MaxNodes); maxNodes < maxSize {
+		maxSize = maxNodes
+	}
+	nodesToAdd := c.calculateNodesToAdd(int64(opts.nodesDelta), cloudProviderNodeGroup.TargetSize(), maxSize)
 	if nodesToAdd <= 0 {
 		err := fmt.Errorf(
 			"refusing to scaleup up beyond the maximum size of the autoscaling group (TargetSize: %v; MaxNodes: %v). Taking no action",
